@@ -124,36 +124,81 @@ def r04_6_lookup_shape(ctx: Ctx) -> RuleResult:
     rr = RuleResult("R04.6", "period lookup returns a period containing the instant; tail hand-off clamps the first tail interval; recurrence stepping admits every Gregorian year", min_instances=4)
     M = ctx.M
     f = M.func("_PrecalculatedDateTimeZone.get_zone_interval")
+    from ..exc import facts_at
+    from ..kit import inline_locals
+
+    def norm(t: str) -> str:
+        return t.replace("_PrecalculatedDateTimeZone", "").replace("cast(ZoneInterval, ", "").rstrip(")") if t.startswith("cast(") else t.replace("_PrecalculatedDateTimeZone", "")
+
     rr.inst()
     wl = [n for n in own_nodes(f.node) if isinstance(n, ast.While)]
     ok = False
+    why = "no binary-search loop"
     if len(wl) == 1:
-        ifs = [s for s in wl[0].body if isinstance(s, ast.If)]
-        if ifs:
-            i0 = ifs[0]
-            t1 = unparse(i0.test)
-            i1 = i0.orelse[0] if i0.orelse and isinstance(i0.orelse[0], ast.If) else None
-            if i1 is not None:
-                t2 = unparse(i1.test)
-                ret = [unparse(s.value) for s in i1.orelse if isinstance(s, ast.Return)]
-                ok = t1 == "candidate._raw_start > instant" and t2 == "candidate._raw_end <= instant" and ret == ["candidate"] and unparse(i0.body[0]) == "upper = current" and unparse(i1.body[0]) == "lower = current + 1"
+        loop = wl[0]
+        rets = [n for n in ast.walk(loop) if isinstance(n, ast.Return) and n.value is not None]
+        cand_ok = False
+        for r in rets:
+            c = unparse(r.value)
+            fa = facts_at(r)
+            if (f"{c}._raw_start", "<=", "instant") in fa and (f"{c}._raw_end", ">", "instant") in fa:
+                cand_ok = True
+            else:
+                why = f"`return {c}` is not dominated by {c}._raw_start <= instant < {c}._raw_end"
+                cand_ok = False
+                break
+        # both arms shrink the searched range: upper = mid under start > instant, lower = mid + 1 under end <= instant
+        lo_hi = [x.id for x in ast.walk(loop.test) if isinstance(x, ast.Name)]
+        shrink_up = shrink_lo = False
+        for n in ast.walk(loop):
+            if isinstance(n, ast.Assign) and isinstance(n.targets[0], ast.Name) and n.targets[0].id in lo_hi:
+                fa = facts_at(n)
+                v = unparse(n.value)
+                if any(l.endswith("._raw_start") and op == ">" and r == "instant" for (l, op, r) in fa) and "+" not in v:
+                    shrink_up = True
+                if any(l.endswith("._raw_end") and op == "<=" and r == "instant" for (l, op, r) in fa) and v.endswith("+ 1"):
+                    shrink_lo = True
+        ok = cand_ok and bool(rets) and shrink_up and shrink_lo
+        if cand_ok and not (shrink_up and shrink_lo):
+            why = "the search range is not shrunk on both arms"
     if ok:
-        rr.ok({"fn": f.qual, "returns": "candidate only when not (start > instant) and not (end <= instant)"})
+        rr.ok({"fn": f.qual, "returns": "candidate only when start <= instant < end; both arms shrink the range"})
     else:
-        rr.fail(f.qual, "binary search does not return exactly the period with start <= instant < end (or does not shrink the range on both arms)", ctx.loc(f))
+        rr.fail(f.qual, f"binary search does not return exactly the period with start <= instant < end ({why})", ctx.loc(f))
     rr.inst()
-    first = f.body[0]
-    ok = isinstance(first, ast.If) and "instant >= self.__tail_zone_start" in unparse(first.test).replace("_PrecalculatedDateTimeZone", "") and "is not None" in unparse(first.test)
-    if ok:
-        txt = unparse(first).replace("_PrecalculatedDateTimeZone", "")
-        ok = "self.__tail_zone.get_zone_interval(instant)" in txt and "interval_from_tail_zone._raw_start < self.__tail_zone_start" in txt and "self.__first_tail_zone_interval" in txt
+    # tail hand-off in get_zone_interval: under (tail present, instant >= tail start) the tail's interval is returned, except that an
+    # interval starting before the tail start is replaced by the stored, clamped first tail interval
+    tail_rets = [n for n in own_nodes(f.node) if isinstance(n, (ast.Return,)) and n.value is not None and not any(n is x for w in wl for x in ast.walk(w))]
+    clamp_seen = tail_seen = False
+    for r in tail_rets:
+        vals = [r.value.body, r.value.orelse] if isinstance(r.value, ast.IfExp) else [r.value]
+        conds = [[(unparse(r.value.test), True)], [(unparse(r.value.test), False)]] if isinstance(r.value, ast.IfExp) else [[]]
+        for v, extra in zip(vals, conds):
+            fa = set(facts_at(r))
+            for t, pos in extra:
+                from ..exc import atoms
+
+                fa |= atoms(ast.parse(t, mode="eval").body, pos)
+            fa = {(norm(a), o, norm(b)) for (a, o, b) in fa}
+            guard = ("instant", ">=", "self.__tail_zone_start") in fa and ("self.__tail_zone", "is not", "None") in fa
+            vt = norm(unparse(v))
+            if guard and "first_tail_zone_interval" in vt and any(a.endswith("._raw_start") and o == "<" and b == "self.__tail_zone_start" for (a, o, b) in fa):
+                clamp_seen = True
+            if guard and "first_tail_zone_interval" not in vt and any(a.endswith("._raw_start") and o == ">=" and b == "self.__tail_zone_start" for (a, o, b) in fa):
+                tail_seen = True
     init = M.func("_PrecalculatedDateTimeZone.__init__")
-    itxt = unparse(init.node).replace("_PrecalculatedDateTimeZone", "")
-    ok = ok and "tail_zone.get_zone_interval(self.__tail_zone_start)._with_start(self.__tail_zone_start)" in itxt and "self.__tail_zone_start = intervals[-1]._raw_end" in itxt
+    stores = {}
+    for n in own_nodes(init.node):
+        if isinstance(n, ast.Assign) and isinstance(n.targets[0], ast.Attribute) and unparse(n.targets[0].value) == "self":
+            stores.setdefault(n.targets[0].attr, []).append((norm(unparse(inline_locals(init.node, n.value))), n))
+    start_ok = [v for v, _ in stores.get("__tail_zone_start", [])] == ["intervals[-1]._raw_end"]
+    first_vals = [(v, n) for v, n in stores.get("__first_tail_zone_interval", []) if v != "None"]
+    first_ok = len(first_vals) == 1 and first_vals[0][0] == "tail_zone.get_zone_interval(self.__tail_zone_start)._with_start(self.__tail_zone_start)" and ("tail_zone", "is not", "None") in facts_at(first_vals[0][1])
+    ok = clamp_seen and tail_seen and start_ok and first_ok
     if ok:
         rr.ok({"fn": f.qual, "tail": "first tail interval clamped to the end of the last period"})
     else:
-        rr.fail(f.qual, "tail hand-off: the first tail interval is not clamped to start where the precalculated periods end", ctx.loc(f))
+        rr.fail(f.qual, f"tail hand-off: the first tail interval is not clamped to start where the precalculated periods end (lookup clamps: {clamp_seen}, lookup returns the tail interval otherwise: {tail_seen}, tail start = end of last period: {start_ok}, stored first interval clamped: {first_ok})", ctx.loc(f))
     # recurrence stepping: after +-1 the guard must admit every year up to MAX / down to MIN before asking for the occurrence
     from ..oblig import interp
 
